@@ -4,7 +4,7 @@ with what is actually built; properties listed in BUILT are claimed, the others 
 with the reason 'check not built yet' (a temporary state while the harness is under construction)."""
 import json, subprocess
 
-BUILT = ["C01", "C02", "C04", "C05", "C06", "C07", "C09", "C10", "C11", "C12", "C13", "C14", "C15", "C18"]
+BUILT = ["C%02d" % i for i in range(1, 19)]
 
 HOOK_COMMITS = ["d149e00"]
 
@@ -17,6 +17,22 @@ P = {
    technique="property-based differential testing of every generated successor against the oracle's move execution, over chains of generated successors (proptest, shrinking) and exhaustive castling / en passant families",
    text="For every parent position explored (same generators as C01, plus promotion-rich walks so that parents which were themselves promotions are frequent) every successor is compared field by field (64 squares, side, four rights, en passant target, both cached king squares, sentinel ring) with the oracle's apply(), and the carried descriptor must have a promotion piece iff the move promotes.",
    note="Trusted base: the oracle's apply(); validated through perft totals (which exercise apply on millions of moves)."),
+ "C03": dict(level="exploration", design="DESIGN.md §5 C03",
+   technique="property-based black-box testing of the real binary: generated UCI sessions (position forms x go parameter classes x chains of go without a new position, a directed promotion-then-castling family) checked by the rules oracle, run under two load levels",
+   text="~4800 go commands per quick run are sent to real engine processes (16 and 48 at a time); each must produce exactly one bestmove line (fenced by isready/readyok) naming a move that is legal in the position reached by the engine's previous answers, spelled in UCI notation with the promotion letter iff it promotes.",
+   note="Thread interleavings of the search and I/O threads are sampled by load variation, not enumerated; the schedule-independent half of the argument is C07 (every board the search can hand back at any expiry point is a legal root successor)."),
+ "C08": dict(level="exploration", design="DESIGN.md §5 C08",
+   technique="property-based black-box testing with generated positions (16% finished games: checkmates and stalemates) and clocks; latency oracle = the engine's own planned slice + 500 ms with serial re-measurement; responsiveness probes after the answer",
+   text="Each generated (position, go) is run in a real process: bestmove (null move when the game is over) within plan + 500 ms, then readyok within 1 s, then a fresh position + go served legally, then quit ends the process, no panic on stderr.",
+   note="A time budget miss is re-measured twice serially before it counts; a missing answer is detected after plan + 10 s. Schedules sampled; unreachable material out of scope."),
+ "C16": dict(level="exploration", design="DESIGN.md §5 C16",
+   technique="differential black-box testing: generated sessions of earlier traffic followed by a probe, compared with a fresh process given only the probe (zero-allowance bestmove; timed info sequences on their common prefix) and with the probe repeated",
+   text="~210 sessions per quick run with 0-25 commands of earlier traffic (positions with repetition histories, searches, ucinewgame, options, ignorable lines, also the probe's own position line used before); the probe's observable reply must equal that of a fresh engine and be repeatable.",
+   note="The timed bestmove itself is excluded (depends on where the clock cuts); info sequences are compared without the time field."),
+ "C17": dict(level="exploration", design="DESIGN.md §5 C17",
+   technique="property-based black-box testing of generated sessions with ignorable lines, odd whitespace, unknown go tokens and seven session endings (quit / end-of-input at different points); state-unchanged oracle via the zero-allowance answer, lifecycle oracle via observed process exit",
+   text="~250 sessions per quick run: isready always answered, zero-allowance answer unchanged by ignorable input, a go with unknown tokens still uses the planned time (independent reading of the command), and the process ends by itself within slice + 1 s after quit or after its standard input is closed (also after a blank line or an unterminated fragment).",
+   note="Invalid UTF-8, bare `position`, non-numeric clock values and movestogo 0 are outside the stated domain and not generated."),
  "C04": dict(level="exploration", design="DESIGN.md §5 C04",
    technique="property-based testing of generated games: the UCI text-move applier against the rules oracle, the generator chain and a print/replay round trip, after every prefix (proptest, shrinking to a minimal game)",
    text="Generated legal games (startpos, corpus FENs, constructed castle / promotion / en passant starts; weighted so that every castling, en passant by both colours, all four promotion pieces with and without capture and rook events on all four corners occur hundreds of times per run) are replayed through the engine's own `position` handler and move applier (reached through the verif hook); after every prefix the result is compared with the oracle position, the from-scratch key, the generator-chain board, and every generated successor is printed as text, replayed and compared with itself.",
